@@ -1,6 +1,5 @@
 import TcheranVerif.Model.Search
 import TcheranVerif.Proofs.SearchSound
-import TcheranVerif.Props.C07
 /-!
 # C04 — the search never overflows its score or counter arithmetic (theorems over the search model)
 
@@ -154,14 +153,8 @@ theorem search_answers_unless_panic (fuel : Nat) (g : Game) (tt : TT.Table) (his
   repeat' split
   all_goals simp
 
-open Rules in
-/-- with the engine's own slider tables (inherits the `native_decide` of `Props.C07`) -/
-theorem fresh_search_returns_legal_tables (root : Game) (h : SInv root) (hk : KeyFaithful root)
-    (fuel mb : Nat) (history : Array Int) (depthLimit : Option Nat) (stopAt : Nat) (everyNode : Bool) (m : Move)
-    (hm : (search fuel root (TT.new mb) history depthLimit stopAt everyNode).best = some m) :
-    m ∈ legalMoves (ofGame root) :=
-  fresh_search_returns_legal ⟨Tcheran.Props.C07.rook_table_geometric, Tcheran.Props.C07.bishop_table_geometric⟩
-    root h hk fuel mb history depthLimit stopAt everyNode m hm
+/-! `T : SliderTables` (the two magic lookups equal the ray walks) is discharged by `Props.C01.sliderTables`
+    from `Props.C07`; it is kept a hypothesis here so that this file stays free of C07's `native_decide`. -/
 
 /-- non-vacuity: the hypotheses are satisfiable. A concrete legal root (`7k/6Q1/6K1/8/8/8/8/8 b`, the side
 to move checkmated: nothing is reachable, so key faithfulness is provable; for a root with moves it is
@@ -216,4 +209,5 @@ end Tcheran.Props.C04
 #print axioms Tcheran.Props.C04.fresh_search_returns_legal
 #print axioms Tcheran.Props.C04.search_after_search
 #print axioms Tcheran.Props.C04.search_answers_unless_panic
-#print axioms Tcheran.Props.C04.fresh_search_returns_legal_tables
+#print axioms Tcheran.Props.C04.mate_sinv
+#print axioms Tcheran.Props.C04.mate_only_root
